@@ -10,11 +10,12 @@ namespace CssVerif.Globals
 def expectedSites : List (String × String × String) := [
   -- Step.combine: parse, resolveImports, `result.encoding =`, remember, swap, serialise, swap back — all outside any try
   ("csscombine-shape", "cssutils/script.py:csscombine", "parse@plain resolve@plain set-encoding@plain remember@plain swap@plain serialize@plain swap@plain"),
-  -- Step.parseString/parseStyle open with `with self.__parseSetting()`; parseFile opens the file first and delegates; parseUrl reads the URL first and delegates
-  ("entry-point", "cssutils/parse.py:CSSParser.parseFile", "stmt with[open(filename, 'rb')] return-parseString"),
-  ("entry-point", "cssutils/parse.py:CSSParser.parseString", "with[self.__parseSetting()] return"),
-  ("entry-point", "cssutils/parse.py:CSSParser.parseStyle", "with[self.__parseSetting()] return"),
-  ("entry-point", "cssutils/parse.py:CSSParser.parseUrl", "stmt-readUrl stmt stmt-calls-parseString"),
+  -- what each public entry point does, helpers and delegation followed: every parse happens inside `with self.__parseSetting()`
+  -- (Step.parseString/parseStyle); parseFile opens the file before it, parseUrl reads the URL before it
+  ("entry-point", "cssutils/parse.py:CSSParser.parseFile", "open setting[parse]"),
+  ("entry-point", "cssutils/parse.py:CSSParser.parseString", "setting[parse]"),
+  ("entry-point", "cssutils/parse.py:CSSParser.parseStyle", "setting[parse]"),
+  ("entry-point", "cssutils/parse.py:CSSParser.parseUrl", "readUrl setting[parse]"),
   -- a stand-alone MediaQuery parses with `_partof` False (topOK): the flag is reset after the constructor parsed its text
   ("mediaquery-init", "cssutils/stylesheets/mediaquery.py:MediaQuery.__init__", "default=False | self._partof = _partof ; [if mediaText] self.mediaText = mediaText ; [if mediaText] self._partof = False"),
   -- withParseSetting is the only library writer of the error mode (errorhandler.__init__ creates the handler)
